@@ -4,7 +4,7 @@
 package workceptor
 
 // verifStatusWrite is a no-op unless built with the "verif" tag (see verif_hooks.go).
-func verifStatusWrite(_ string, _ int, _ int64, _ int, _ int64) {}
+func verifStatusWrite(_ string, _ int, _ int64, _ int, _ int64, _ string) {}
 
 // verifCrashPoint is a no-op unless built with the "verif" tag (see verif_hooks.go).
 func verifCrashPoint(_ string) {}
